@@ -775,6 +775,7 @@ class World:
                     w.transports['c'] = tc
                     w.client_transports.append(tc)
                     w.rec.log('c', 'transport_taken', x=w.generation)
+                    w._frag_cursor = {}       # fragment cursors of the recorder belong to a connection
                     if w.opts.get('provider_suspends'):
                         for _ in range(int(w.opts['provider_suspends'])):
                             await asyncio.sleep(0)
